@@ -8,6 +8,7 @@
 static __thread venv_stream vs = { .key = 0x243f6a8885a308d3ULL, .fail_at = -1, .fail_from = -1 };
 __thread int venv_in_ref = 0;
 static time_t vnow = VENV_NOW;
+void (*venv_fail_hook)(void) = 0;   /* called (in the failing thread) when a scripted entropy failure is delivered */
 
 venv_stream *venv_cur(void) { return &vs; }
 void venv_reset(uint64_t key) { memset(&vs, 0, sizeof vs); vs.key = key; vs.fail_at = -1; vs.fail_from = -1; }
@@ -27,7 +28,7 @@ int getentropy(void *buf, size_t len)
 	}
 	if (len > 256) { errno = EIO; return -1; }
 	long idx = vs.draws++;
-	if (idx == vs.fail_at || (vs.fail_from >= 0 && idx >= vs.fail_from)) { errno = EIO; return -1; }
+	if (idx == vs.fail_at || (vs.fail_from >= 0 && idx >= vs.fail_from)) { vs.failed++; if (venv_fail_hook) venv_fail_hook(); errno = EIO; return -1; }
 	for (size_t i = 0; i < len; i++) {
 		if (vs.scriptpos < vs.scriptlen) o[i] = vs.script[vs.scriptpos++];
 		else { uint64_t w = mix(vs.key ^ mix(vs.ctr >> 3)); o[i] = (uint8_t)(w >> (8 * (vs.ctr & 7))); vs.ctr++; }
